@@ -5,6 +5,10 @@ import numpy as np
 class PythonSampler:
     def __init__(self, weights: np.ndarray, seed: Optional[int] = None) -> None:
         self.rng = np.random.default_rng(seed or 1)
+        # Like vose.Sampler: work on a private copy (the caller's array is left untouched)
+        # and do not require the weights to sum up to 1.
+        weights = np.array(weights, dtype=float)
+        weights /= np.sum(weights)
         n = len(weights)
         alias = np.zeros(n, dtype=int)
         proba = np.zeros(n, dtype=float)
